@@ -49,6 +49,7 @@ type Case struct {
 	Reply          []byte   `json:"reply"`           // wire form of un.All (routes plain/rb-*)
 	RawType        string   `json:"raw_type"`        // HttpBody content type (routes raw / rb-body)
 	RawData        []byte   `json:"raw_data"`
+	ForgeType      string   `json:"forge_type"`  // with a HeaderMode: the handler's header metadata also carries content-type = this
 	HeaderMode     string   `json:"header_mode"` // "", "set" (grpc.SetHeader) or "send" (grpc.SendHeader) before the reply is returned
 	Later          int      `json:"later"`       // further registrations on the same mux after the service under test (0-2)
 	ReqGzip        bool     `json:"req_gzip"`    // POST: the request body itself travels gzip-compressed (Content-Encoding: gzip)
@@ -137,11 +138,17 @@ func Check(c Case) ([]evid.Violation, info) {
 	asset := &httpbody.HttpBody{ContentType: c.RawType, Data: append([]byte{}, c.RawData...)}
 	cached := proto.Clone(reply)
 	sd := w.ServiceDesc("un.C4", func(ctx context.Context, fm string, req *dynamicpb.Message) (proto.Message, error) {
+		hmd := metadata.Pairs("x-c4", "1")
+		if c.ForgeType != "" {
+			// metadata named like the protocol's own header (a handler mirroring its incoming metadata does this
+			// without meaning to): the response Content-Type still has to name the codec of the bytes sent
+			hmd.Set("content-type", c.ForgeType)
+		}
 		switch c.HeaderMode {
 		case "set":
-			grpc.SetHeader(ctx, metadata.Pairs("x-c4", "1"))
+			grpc.SetHeader(ctx, hmd)
 		case "send":
-			grpc.SendHeader(ctx, metadata.Pairs("x-c4", "1"))
+			grpc.SendHeader(ctx, hmd)
 		}
 		if strings.HasSuffix(fm, "/Raw") {
 			if c.Cached > 0 {
@@ -388,6 +395,9 @@ func genCase(t *rapid.T) Case {
 		c.ContentType = rapid.SampledFrom([]string{"image/jpeg", "text/plain", "application/x-unknown"}).Draw(t, "oddCTv")
 	}
 	c.HeaderMode = rapid.SampledFrom([]string{"", "", "set", "send"}).Draw(t, "headerMode")
+	if c.HeaderMode != "" && rapid.IntRange(0, 2).Draw(t, "forge") == 0 {
+		c.ForgeType = rapid.SampledFrom([]string{"text/plain", "application/json", "application/protobuf", "application/octet-stream", "application/grpc"}).Draw(t, "forgeType")
+	}
 	c.Later = rapid.SampledFrom([]int{0, 0, 1, 2}).Draw(t, "later")
 	c.ReqGzip = c.Verb == "POST" && rapid.IntRange(0, 3).Draw(t, "reqGzip") == 0
 	c.Cached = rapid.SampledFrom([]int{0, 0, 0, 0, 1, 2}).Draw(t, "cached")
@@ -430,7 +440,7 @@ func TestProp(t *testing.T) {
 			hasQ = hasQ || r.Q != 1
 			hasWild = hasWild || r.Sub == "*"
 		}
-		cl := []string{"route=" + c.Route, "reqct=" + c.ContentType, fmt.Sprintf("adm=%d", in.adm), "headers=" + c.HeaderMode}
+		cl := []string{"route=" + c.Route, "reqct=" + c.ContentType, fmt.Sprintf("adm=%d", in.adm), "headers=" + c.HeaderMode + map[bool]string{true: "+content-type-metadata"}[c.ForgeType != ""]}
 		if in.contested {
 			cl = append(cl, "accept-contested")
 		} else if c.Accept != nil {
@@ -450,7 +460,7 @@ func TestProp(t *testing.T) {
 		nonEmpty := len(c.Reply) > 0 || len(c.RawData) > 0
 		key := ""
 		if nonEmpty && (nranges >= 2 || hasQ || hasWild || c.Route != "plain") {
-			key = fmt.Sprintf("%s|%s|%s|%v|%d|%v|%v|%d|%s", c.Route, c.Verb, c.ContentType, in.contested, in.adm, hasQ, hasWild, nranges, c.HeaderMode)
+			key = fmt.Sprintf("%s|%s|%s|%v|%d|%v|%v|%d|%s", c.Route, c.Verb, c.ContentType, in.contested, in.adm, hasQ, hasWild, nranges, c.HeaderMode+c.ForgeType)
 			if c.ReqGzip {
 				key += "|reqgzip"
 			}
